@@ -24,7 +24,8 @@ EVIDENCE = os.path.join(VERIF, 'evidence')
 REPLAYS = os.path.join(VERIF, 'replays')
 CORPUS = os.path.join(VERIF, 'corpus')
 KNOWN = os.path.join(VERIF, 'known_findings.jsonl')
-NCPU = max(2, min(16, os.cpu_count() or 2))
+NCPU = int(os.environ.get('VERIF_NCPU', '0')) or max(2, min(16, os.cpu_count() or 2))
+SLOTS_DIR = os.environ.get('VERIF_SLOTS', '/tmp/.pylife-verif-slots')
 
 COQ_FLAGS = ['-R', os.path.join(COQ, 'theories'), 'PL',
              '-R', os.path.join(COQ, 'gen'), 'PLgen',
@@ -171,14 +172,56 @@ def theorem_names(prop_file):
     return re.findall(r'^\s*(?:Theorem|Lemma|Corollary)\s+([A-Za-z0-9_\']+)', src, flags=re.M)
 
 
-def coq_scratch(name, text, timeout=600, extra_flags=()):
-    """Compile a generated .v file (cases / certificates) outside the project tree."""
+class Slot:
+    """System-wide bound on the number of concurrent coqc processes started by checks (each certificate
+    compile needs ~0.6 GB): NCPU slot files, one flock each, shared by every check on the machine."""
+
+    def __enter__(self):
+        try:
+            mkdirs(SLOTS_DIR)
+        except OSError:
+            self.f = None
+            return self
+        while True:
+            for k in range(NCPU):
+                f = open(os.path.join(SLOTS_DIR, 'slot%d' % k), 'w')
+                try:
+                    fcntl.flock(f, fcntl.LOCK_EX | fcntl.LOCK_NB)
+                    self.f = f
+                    return self
+                except OSError:
+                    f.close()
+            time.sleep(0.2)
+
+    def __exit__(self, *a):
+        if self.f is not None:
+            fcntl.flock(self.f, fcntl.LOCK_UN)
+            self.f.close()
+
+
+def infra_failure(rc, out):
+    """coqc was killed / timed out / produced nothing although it failed: not a verdict about the input."""
+    return rc in (124, 137, -9, -15) or (rc != 0 and 'Error' not in out and 'error' not in out) or 'Out of memory' in out \
+        or 'Stack overflow' in out or 'Cannot allocate memory' in out
+
+
+def coq_scratch(name, text, timeout=600, extra_flags=(), retries=2):
+    """Compile a generated .v file (cases / certificates) outside the project tree.
+    A run that was killed or timed out (machine overloaded) is retried; it is never taken as a verdict."""
     d = os.path.join(BUILD, 'scratch')
     mkdirs(d)
     path = os.path.join(d, name + '.v')
     with open(path, 'w') as f:
         f.write(text)
-    rc, out = sh(['coqc', '-w', '-all'] + COQ_FLAGS + list(extra_flags) + ['-Q', d, 'Scratch', path], cwd=d, timeout=timeout)
+    rc, out = 1, ''
+    for attempt in range(retries + 1):
+        with Slot():
+            rc, out = sh(['coqc', '-w', '-all'] + COQ_FLAGS + list(extra_flags) + ['-Q', d, 'Scratch', path], cwd=d, timeout=timeout)
+        if rc == 0 or not infra_failure(rc, out):
+            break
+        time.sleep(2 + 5 * attempt)
+    if rc != 0 and infra_failure(rc, out):
+        out += '\n[INFRASTRUCTURE FAILURE: coqc exit %s without a verdict]' % rc
     return rc == 0, out
 
 
@@ -190,12 +233,18 @@ def coq_scratch_many(items, timeout=600):
 
 
 def coq_compare(name, requires, cases, shard=300, timeout=900, prelude=''):
+    """As coq_compare3, with the unevaluated cases merged into the bad ones (log non-empty when there are any)."""
+    bad, uneval, log = coq_compare3(name, requires, cases, shard, timeout, prelude)
+    return sorted(set(bad) | set(uneval)), log
+
+
+def coq_compare3(name, requires, cases, shard=300, timeout=900, prelude=''):
     """Correspondence by evaluation inside Coq (vm_compute).
 
     cases: list of Coq terms of type bool, each typically `eqb (model input) (what the implementation returned)`.
     They are evaluated by vm_compute in parallel shards; only the indices evaluating to false are printed and
-    parsed (no parsing of wrapped Coq output).  Returns (bad_indices, failed_shards_log):
-    a shard that does not compile counts all its cases as bad."""
+    parsed (no parsing of wrapped Coq output).  Returns (bad, unevaluated, log): bad = indices the kernel
+    evaluated to false; unevaluated = indices of shards that gave no verdict (ill-typed case, coqc killed)."""
     shards = [list(range(k, min(k + shard, len(cases)))) for k in range(0, len(cases), shard)]
     items = []
     for j, idx in enumerate(shards):
@@ -205,15 +254,17 @@ def coq_compare(name, requires, cases, shard=300, timeout=900, prelude=''):
         t += 'Eval vm_compute in (length cases, bad).\n'
         items.append(('%s_cases_%d' % (name, j), t))
     res = coq_scratch_many(items, timeout)
-    bad, logs = [], []
+    bad, uneval, logs = [], [], []
     for idx, (ok, out) in zip(shards, res):
         m = re.search(r'=\s*\((\d+)%?n?a?t?,\s*\[(.*?)\]\)', out.replace('\n', ' '), flags=re.S)
         if not ok or not m or int(m.group(1)) != len(idx):
-            bad.extend(idx)
-            logs.append(out[-2000:])
+            # the shard gave no verdict (a case that does not typecheck, or coqc killed): every case of it is
+            # reported as not evaluated -- callers must not present these as concrete failing inputs
+            uneval.extend(idx)
+            logs.append('[shard without verdict: cases %d..%d]\n' % (idx[0], idx[-1]) + out[-2000:])
             continue
         bad.extend(int(x) for x in re.findall(r'\d+', m.group(2)))
-    return sorted(bad), '\n'.join(logs)
+    return sorted(bad), sorted(uneval), '\n'.join(logs)
 
 
 # --------------------------------------------------------------------------- numbers -> Coq
